@@ -15,7 +15,18 @@ Record ev_obs := {
   eo_val_ok : bool; eo_ts_ok : bool; eo_ts : N;
   eo_bits : Z }.                             (* float64 bits of the value token (oracle) *)
 
-Inductive event := ELine (b : bytes) | EAgg (b : bytes) | ENow (now : N) | ETick (now : N).
+Inductive event := ELine (b : bytes) | EAgg (b : bytes) | ENow (now : N) | ETick (now : N)
+  | EModRoute (ri : nat) (m : matcher).   (* Table.UpdateRoute at run time: route ri gets the filter m (in place, nothing republished) *)
+
+Fixpoint set_nth_route (rs : list route) (ri : nat) (m : matcher) : list route :=
+  match rs, ri with
+  | [], _ => []
+  | r :: rs', O => {| r_kind := r_kind r; r_matcher := m; r_dests := r_dests r |} :: rs'
+  | r :: rs', S k => r :: set_nth_route rs' k m
+  end.
+Definition mod_route (t : table) (ri : nat) (m : matcher) : table :=
+  {| t_ll := t_ll t; t_lm := t_lm t; t_order := t_order t; t_blacklist := t_blacklist t; t_rewriters := t_rewriters t;
+     t_aggs := t_aggs t; t_routes := set_nth_route (t_routes t) ri m |}.
 
 Definition verr_code (e : verr) : N * N :=
   match e with
@@ -143,6 +154,7 @@ Fixpoint table_run (mask : N) (t : table) (cfgs : list agg_cfg) (st : sys_state)
   | (ETick n, e) :: evs' =>
       let '(sts', lines) := tick_aggs cfgs sts n in
       if tick_ok mask t lines e then table_run mask t cfgs (om, sts', n) evs' (S i) else Some i
+  | (EModRoute ri m, _) :: evs' => table_run mask (mod_route t ri m) cfgs st evs' (S i)
   end.
 
 Record table_case := { tc_mask : N; tc_table : table; tc_aggcfg : list agg_cfg; tc_events : list (event * ev_obs); tc_mutated : bool;
@@ -159,6 +171,7 @@ Fixpoint expected_keys (t : table) (om : omap) (evs : list (event * ev_obs)) : l
                                      | Some k => [k] | None => [] end
                          | None => [] end) (o_agg_consumed o)
       ++ expected_keys t om' evs'
+  | (EModRoute ri m, _) :: evs' => expected_keys (mod_route t ri m) om evs'
   | _ :: evs' => expected_keys t om evs'
   end.
 
@@ -192,6 +205,7 @@ Fixpoint table_expected (t : table) (om : omap) (evs : list (event * ev_obs)) : 
   | (ELine b, e) :: evs' =>
       let '(om', o) := dispatch rx_search t om b (eo_val_ok e) (eo_ts_ok e) (eo_ts e) in o :: table_expected t om' evs'
   | (EAgg b, e) :: evs' => dispatch_aggregate rx_search (t_routes t) b :: table_expected t om evs'
+  | (EModRoute ri m, _) :: evs' => no_outcome :: table_expected (mod_route t ri m) om evs'
   | _ :: evs' => no_outcome :: table_expected t om evs'
   end.
 Definition table_diag (c : table_case) : option (nat * option outcome) :=
